@@ -277,7 +277,61 @@ def r6_generic_measures(ctx):
     ctx.floor('generic MessageBody impls', n, 20)
 
 
+def r7_set_content_and_clone(ctx):
+    ctx.set_rule('C16.R4')
+    P = ctx.P
+    M = 'des::net::message::Message'
+    # every setter measures the NEW value: the content field is (re)assigned Some(Body::new*(value)) on every path
+    for m, ctor in (('set_content', 'new'), ('set_content_non_clonable', 'new_non_clonable'), ('set_content_non_debugable', 'new_non_debugable')):
+        f = P.fns.get(M + '::' + m)
+        if f is None:
+            ctx.violation('anchor:%s' % m, 'unresolved-anchor Message::%s' % m); continue
+        ctx.touch(f)
+        n = 0
+        for path, outcome, decs in fn_paths(ctx, f):
+            if outcome != 'return':
+                continue
+            n += 1
+            effs = path_effects(f, path)
+            ws = [e for e in effs if e[0] == 'w' and e[2] == 'content']
+            ok = len(ws) == 1
+            if ok:
+                v = ws[0][4]
+                bn = [x for x in walk(v)] if v else []
+                calls = [x for x in bn if x[0] == 'call' and x[1] == BODY + '::' + ctor]
+                ok = bool(calls) and peel(calls[0][2][0])[0] == 'arg'
+            ctx.check(ok, 'setter-builds-body:%s' % m,
+                      'Message::%s installs a freshly built body (Body::%s measures the new value) on every path — an in-place overwrite would keep the old declared length' % (m, ctor),
+                      f.where_path(path))
+        ctx.floor('paths of Message::%s' % m, n, 1)
+    # a message with a non-clonable body cannot be cloned into a body-less message
+    ctx.set_rule('C16.R3')
+    f = P.fns.get(M + '::try_clone')
+    if f is None:
+        ctx.violation('anchor:Message::try_clone', 'unresolved-anchor Message::try_clone'); return
+    ctx.touch(f)
+    direct = f.calls_to(BODY + '::try_clone')
+    if not ctx.check(len(direct) == 1, 'clone-failure-propagated', 'Message::try_clone inspects the result of Body::try_clone itself (a failed body clone must make the whole clone fail, not yield a body-less message)', f.where()):
+        return
+    n = 0
+    for path, outcome, decs in fn_paths(ctx, f):
+        if outcome != 'return':
+            continue
+        outs = [r for _, r in call_outcomes(f, path, decs, BODY + '::try_clone')]
+        r = path_ret(f, path)
+        is_some = r is not None and r[0] == 'agg' and r[1].endswith('Option::Some')
+        is_none = r is not None and r[0] == 'agg' and r[1].endswith('Option::None')
+        # the `?` is lowered to Try::branch on the clone result
+        atoms = [a for _, a in path_atoms(f, path, decs)]
+        failed = any(a[0] == 'is' and a[2] == 'Break' and any(x[0] == 'call' and x[1] == BODY + '::try_clone' for x in walk(a[1])) for a in atoms) or ('None' in outs)
+        if failed:
+            n += 1
+            ctx.check(not is_some, 'failed-body-clone-is-none', 'when the body cannot be cloned, Message::try_clone returns None', f.where_path(path))
+    ctx.floor('failing-clone paths of Message::try_clone', n, 1)
+
+
 def run(ctx):
+    r7_set_content_and_clone(ctx)
     r1_guarded_reinterpretation(ctx)
     r2_vtables(ctx)
     r3_drop_once(ctx)
